@@ -66,7 +66,11 @@ def build_specs():
          Row("singleton 'x'", X1, 'call', sub='PrivateExtensionList', slot='PrivateExtensionList', last=True),
          Row('other alphanumeric singleton', OTHER1, 'either'), Row('non-alphanumeric singleton', NONALNUM1, 'reject'),
          Row('subtag longer than one character at an extension boundary', LEN2PLUS, 'reject')]
-    specs['dispatch'] = {'init': 'B', 'B': b + [Row('END', None, 'finish')]}
+    # START = the first subtag the dispatcher sees.  It differs from B in one row: ExtensionsMap prints itself with a leading separator
+    # ("-u-ca-buddhist": Locale::into_parts, the string locale! hands to `.parse()` at run time), so the first subtag of its own output is
+    # empty and has to be skipped, not rejected - reported under its own rule id (PARSE-SELFREAD), only by the properties that need it.
+    b0 = [Row(r.name, r.shape, r.outcome, **dict(r.kw, next='B', **({'selfread': True} if r.name == 'empty subtag' else {}))) for r in b]
+    specs['dispatch'] = {'init': 'START', 'START': b0 + [Row('END', None, 'finish')], 'B': b + [Row('END', None, 'finish')]}
     # ---- A.3 -u-
     attrs = [Row('attribute', uattr, 'consume', slot='list', role='uattr', next='ATTRS'), Row('key', ukey, 'consume', slot='K', role='ukey', next='KEY'),
              Row('singleton', LEN1, 'yield'), Row('two characters, not a key', LEN2.minus(ukey), 'reject'), Row('empty subtag', EMPTY, 'either')]
@@ -417,8 +421,11 @@ class TableCheck:
                 if kw.get('no_early_ok') and end[0] == 'ok':
                     # "accepted as if the emptiness were absent": an empty subtag may be skipped or rejected, but the parse must not stop there
                     self.add('PARSE-NODROP', q, r.name, 'the parse ends successfully at an empty subtag: whatever follows it is silently ignored', w, sp)
+                if kw.get('selfread') and end[0] == 'err':
+                    self.add('PARSE-SELFREAD', q, r.name, 'an empty first subtag is rejected: the extension map does not read back its own Display output, which starts with a separator '
+                             '("-u-ca-buddhist": Locale::into_parts, the string locale! parses at run time)', w, sp)
                 if end[0] == 'head':
-                    return q
+                    return nextq if nextq else q
                 return None
             if oc in ('finish', 'default-language'):
                 if oc == 'finish' and end[0] != 'ok':
